@@ -30,6 +30,7 @@ import (
 
 	"ergo.services/ergo/gen"
 	"ergo.services/ergo/net/proto"
+	"ergo.services/ergo/lib"
 )
 
 func init() {
@@ -613,4 +614,92 @@ func c16RunChild(c *Ctx, cases []c16FCase, expectProbe []bool) ([]map[string]str
 		se = werr.Error()
 	}
 	return res, se, died
+}
+
+func init() { c16parts = append(c16parts, c16Decompress) }
+
+// c16Decompress: the three unpack functions of the compressed receive case, called directly with hostile declared
+// lengths (0, understated, overstated, exact) around well-formed and damaged streams: each call returns (a value or an
+// error) within two seconds — a worker that spins on a frame never serves its queue again — and only the exact length
+// of an intact stream yields the original bytes.
+func c16Decompress(c *Ctx) {
+	r := c.R
+	type codec struct {
+		name string
+		comp func(*lib.Buffer, uint) (*lib.Buffer, error)
+		dec  func(*lib.Buffer, uint) (*lib.Buffer, error)
+	}
+	codecs := []codec{
+		{"gzip", func(b *lib.Buffer, p uint) (*lib.Buffer, error) { return lib.CompressGZIP(b, p, 0) }, lib.DecompressGZIP},
+		{"zlib", lib.CompressZLIB, lib.DecompressZLIB},
+		{"lzw", lib.CompressLZW, lib.DecompressLZW},
+	}
+	n := c.N(40, 600)
+	for i := 0; i < n; i++ {
+		cd := codecs[i%3]
+		plain := make([]byte, 1+c.Rng.Intn(3000))
+		for j := range plain {
+			plain[j] = byte(c.Rng.Intn(7)) // compressible
+		}
+		src := lib.TakeBuffer()
+		src.Append(plain)
+		z, err := cd.comp(src, 9)
+		if err != nil || z.Len() < 13 {
+			r.Count("decompress.inconclusive")
+			continue
+		}
+		packed := append([]byte(nil), z.B...)
+		var declared uint32
+		kind := []string{"exact", "zero", "understated", "overstated", "damaged"}[c.Rng.Intn(5)]
+		switch kind {
+		case "exact", "damaged":
+			declared = uint32(len(plain))
+		case "zero":
+			declared = 0
+		case "understated":
+			declared = uint32(c.Rng.Intn(len(plain)))
+		case "overstated":
+			declared = uint32(len(plain) + 1 + c.Rng.Intn(5000))
+		}
+		binary.BigEndian.PutUint32(packed[9:13], declared)
+		if kind == "damaged" && len(packed) > 20 {
+			packed[13+c.Rng.Intn(len(packed)-13)] ^= byte(1 + c.Rng.Intn(255))
+		}
+		type res struct {
+			out []byte
+			err error
+		}
+		done := make(chan res, 1)
+		in := &lib.Buffer{B: append([]byte(nil), packed...)}
+		go func() {
+			defer func() {
+				if p := recover(); p != nil {
+					done <- res{nil, fmt.Errorf("PANIC %v", p)}
+				}
+			}()
+			b, e := cd.dec(in, 9)
+			if b != nil {
+				done <- res{append([]byte(nil), b.B...), e}
+			} else {
+				done <- res{nil, e}
+			}
+		}()
+		rp := map[string]interface{}{"codec": cd.name, "kind": kind, "unpacked_len": len(plain), "declared": declared, "frame_hex": hexs(packed[:min2(len(packed), 64)])}
+		select {
+		case x := <-done:
+			switch {
+			case x.err != nil && strings.HasPrefix(x.err.Error(), "PANIC"):
+				r.Violation("C16/decompress-panic", fmt.Sprintf("%s: %v", cd.name, x.err), rp)
+			case kind == "exact" && (x.err != nil || !bytes.Equal(x.out, plain)):
+				r.Violation("C16/decompress-roundtrip", fmt.Sprintf("%s: an intact stream with the exact length did not unpack to the original (%v)", cd.name, x.err), rp)
+			case (kind == "zero" || kind == "understated" || kind == "overstated") && x.err == nil:
+				r.Violation("C16/decompress-length-ignored", fmt.Sprintf("%s: declared length %d for %d unpacked bytes was accepted", cd.name, declared, len(plain)), rp)
+			}
+		case <-time.After(2 * time.Second):
+			r.Violation("C16/decompress-hang", fmt.Sprintf("%s: unpacking a %d-byte envelope with declared length %d (%s; real unpacked size %d) did not return within 2 s: the decoding worker of that receive queue is lost", cd.name, len(packed), declared, kind, len(plain)), rp)
+			return
+		}
+		r.Case(fmt.Sprintf("decompress/%s/%s/%d/%d", cd.name, kind, len(plain), declared), kind != "exact")
+		r.Count("decompress." + kind)
+	}
 }
